@@ -1,54 +1,42 @@
-"""Shared sweep for C01 (round trip / transcoding) and C02 (byte-exact DER/UPER/OER): every (type, value) of
-the enumerated shape families goes through the driver's `rt` command; the Python reference supplies the
-expected bytes."""
-import os, shutil, time, collections
+"""Shared sweep for C01 (round trip / transcoding), C02 (byte-exact DER/UPER/OER) and C13 (options): every
+(type, value) of the enumerated shape families goes through the driver's `rt` command; the Python reference
+supplies the expected bytes."""
+import os, collections
 from tools import build, common, corpus
+from checks import base
 from gen import typegen, values, features
 from ref import asn1ast as A, ber, uper, oer
 
 SYN = ['der', 'oer', 'uper', 'xer', 'cxer']
+families_for = base.families_for
 
 
-def families_for(tier, arg):
-    if arg:
-        return arg.split(',')
-    return ['S0', 'S1', 'S2', 'S4', 'S5', 'S6'] if tier == 'quick' else ['S0', 'S1', 'S2', 'S3', 'S4', 'S5', 'S6']
-
-
-def sweep(chk, args, want_c01, want_c02, opts=(), flavour='asan', defines=(), workname=None, cases=None, two=None):
-    tier = args.tier
-    fams = families_for(tier, getattr(args, 'families', None))
-    if cases is None:
-        cases = typegen.cases(tier, fams)
-    work = os.path.join(build.BUILD, workname or ('rt-%s-%d' % (chk.prop, os.getpid())))
-    batches, failures = corpus.build_corpus(cases, work, flavour=flavour, opts=opts, defines=defines)
-    stats = collections.Counter()
-    distinct = set()
-    samples = []
-    for c, err, text in failures:
-        stats['types_not_built'] += 1
-        chk.violation(dict(kind='type_not_built', family=c.family, label=c.label),
-                      dict(module=text, error=err, note='asn1c rejected the module or the generated C did not compile'))
-    two = (tier == 'thorough') if two is None else two
-    for b in batches:
+def make_worker(want_c01, want_c02, two, opts=(), skip_syntax=()):
+    def worker(b):
+        o = base.Out()
         lines, meta = [], []
         for c in b.cases:
             big = (c.family == 'S6' and c.label.startswith('long/'))
             for v, d in corpus.case_values(b, c, two=two and c.family in ('S1', 'S2', 'S4'), big=big):
-                lines.append('rt %s %s' % (c.name, d.hex()))
+                fe = features.features(b.mod, b.mod.types[c.name], v)
+                mask = []
+                # types without a PER/OER codec (known findings KF-SET-no-per-oer, KF-ObjectDescriptor-no-oer): the nested
+                # NULL call would kill the process and hide the DER/XER observations of the same value
+                if 'has_SET' in fe:
+                    mask += ['uper', 'oer']
+                elif 'k:ObjectDescriptor' in fe:
+                    mask += ['oer']
+                lines.append('%s %s %s%s' % ('rtl' if big else 'rt', c.name, d.hex(), (' ' + ','.join(mask)) if mask else ''))
                 meta.append((c, v, d))
-        stats['types'] += len(b.cases)
-        res = common.run_driver_parallel(b.exe, lines, watchdog=20)
-        for (c, v, d), r in zip(meta, res):
-            stats['values'] += 1
+        res = common.run_driver(b.exe, lines, watchdog=30)
+        for (c, v, d), r, line in zip(meta, res, lines):
+            o.stats['values'] += 1
             t = b.mod.types[c.name]
             feats = sorted(features.features(b.mod, t, v))
 
-            def viol(kind, syntax, detail, c=c, v=v, d=d, feats=feats, b=b, r=r):
-                sig = dict(kind=kind, syntax=syntax, family=c.family, label=c.label, features=feats)
-                chk.violation(sig, dict(module=b.text, type=c.name, value=repr(v), ref_der=d.hex(), cmd='rt %s %s' % (c.name, d.hex()),
-                                        observed=(r.line or r.crash or '')[:3000], detail=detail, asn1c_opts=list(opts)))
-                stats['viol:' + kind] += 1
+            def viol(kind, syntax, detail):
+                o.v(b, c, kind, syntax, detail, value=v, cmd=line[:4000], observed=(r.line or r.crash or ''), feats=feats,
+                    extra=dict(ref_der=d.hex()[:4000], asn1c_opts=list(opts)))
             if r.crash is not None:
                 viol('crash', 'any', r.crash[-1500:])
                 continue
@@ -58,19 +46,25 @@ def sweep(chk, args, want_c01, want_c02, opts=(), flavour='asan', defines=(), wo
                 continue
             nontriv = len(d) >= 3
             encs = {}
+            skipped = set(skip_syntax)
             for s in SYN:
-                x = kv.get(s, 'E?')
-                if x.startswith('E'):
+                x = kv.get(s, 'skip')
+                if x == 'skip' or s in skip_syntax:
+                    encs[s] = None
+                    skipped.add(s)
+                    if x == 'skip' and s in ('uper', 'oer'):
+                        o.stats['masked_by_known_finding:' + s] += 1
+                elif x.startswith('E'):
                     encs[s] = None
                     if want_c01:
                         viol('enc_fail', s, 'errno=' + x[1:])
                 else:
                     encs[s] = b'' if x == '-' else bytes.fromhex(x)
-            stats['evaluations'] += 25
+            o.stats['evaluations'] += 25
             if want_c01:
                 for f in flags:
                     parts = f.split(':')
-                    if parts[0] == 'der0':
+                    if parts[0] in ('der0', 'transbytes'):
                         continue
                     if parts[0] == 'dec':
                         c_, n_ = parts[3][1:].split('/')
@@ -90,31 +84,32 @@ def sweep(chk, args, want_c01, want_c02, opts=(), flavour='asan', defines=(), wo
                     viol('leak', 'any', 'leak=%s badfree=%s' % (kv.get('leak'), kv.get('badfree')))
             if want_c02:
                 exp = {'der': d}
-                try:
-                    exp['uper'] = uper.encode(b.mod, t, v)
-                except Exception as e:
-                    exp['uper'] = None
-                    stats['ref_uper_undefined'] += 1
-                try:
-                    exp['oer'] = oer.encode(b.mod, t, v)
-                except Exception as e:
-                    exp['oer'] = None
-                    stats['ref_oer_undefined'] += 1
+                for s, fn in (('uper', uper.encode), ('oer', oer.encode)):
+                    try:
+                        exp[s] = fn(b.mod, t, v)
+                    except Exception as e:
+                        exp[s] = None
+                        o.stats['ref_%s_undefined' % s] += 1
                 for s in ('der', 'uper', 'oer'):
-                    if exp[s] is None:
+                    if exp[s] is None or s in skipped:
                         continue
-                    stats['c02_compared:' + s] += 1
+                    o.stats['c02_compared:' + s] += 1
                     if encs[s] is None:
-                        viol('enc_fail', s, 'encoder failed where the reference defines an encoding')
+                        viol('enc_fail', s, 'encoder failed where the reference defines an encoding: ' + kv.get(s, ''))
                     elif encs[s] != exp[s]:
                         viol('bytes_differ', s, 'expected=%s observed=%s' % (exp[s].hex()[:400], encs[s].hex()[:400]))
-            if nontriv and len(set(x for x in encs.values() if x is not None)) >= 4:
-                distinct.add((c.name, b.mod.name, d))
-            if len(samples) < 6 and nontriv and stats['values'] % 97 == 1:
-                samples.append(dict(type=A.type_text(b.mod, t, 0)[:300], value=repr(v)[:200], der=d.hex()[:120],
-                                    uper=(encs['uper'] or b'').hex()[:120], oer=(encs['oer'] or b'').hex()[:120]))
-        if not getattr(args, 'keep', False):
-            shutil.rmtree(b.dir, ignore_errors=True)
-    if not getattr(args, 'keep', False):
-        shutil.rmtree(work, ignore_errors=True)
-    return stats, distinct, samples
+            if nontriv and len(set(x for x in encs.values() if x is not None)) >= 3:
+                o.distinct.add((c.label, d))
+            if len(o.samples) < 2 and nontriv and o.stats['values'] % 97 == 1:
+                o.samples.append(dict(type=A.type_text(b.mod, t, 0)[:300], value=repr(v)[:200], der=d.hex()[:120],
+                                      uper=(encs['uper'] or b'').hex()[:120], oer=(encs['oer'] or b'').hex()[:120]))
+        return o
+    return worker
+
+
+def sweep(chk, args, want_c01, want_c02, opts=(), flavour='asan', defines=(), workname=None, cases=None, two=None, skip_syntax=(), fams=None):
+    tier = args.tier
+    fams = fams or families_for(tier, getattr(args, 'families', None))
+    two = (tier == 'thorough') if two is None else two
+    return base.run_sweep(chk, args, make_worker(want_c01, want_c02, two, opts, skip_syntax), cases=cases, fams=fams, flavour=flavour,
+                          opts=opts, defines=defines, workname=workname)
